@@ -107,6 +107,24 @@ class Endpoint:
     kind: str = 'https'
     host: str = 'localhost'
 ''',
+    'every kind of constant, two to four times each, in expression position': '''
+from typing import Callable, Tuple
+Shape = Tuple[int, ...]
+Handler = Callable[..., int]
+Pair = Tuple[str, ...]
+def spread(grid, fill=..., other=...):
+    if fill is ... or other is ...:
+        return grid[..., 0], grid[0, ...], grid[...]
+    return grid[..., 1]
+def numbers(v):
+    return v + 1000000, v - 1000000, v * 1000000, v + 0.000001, v - 0.000001, v * 1e100, v / 1e100, v + 12j, v - 12j, -255, -255, -255, ~v, 0xffffffff, 0xffffffff
+def texts(v):
+    return v + 'ab', v + 'ab', v + 'ab', v + '', v + '', v + '', v + 'a', v + 'a', v + 'a', v + 'a', b'ab', b'ab', b'ab', b'', b'', b''
+def singletons(v):
+    return (v is None, v is None, v is None, v is True, v is True, v is False, v is False, v is not None, [None, None], (True, False), {None: None})
+def nested(v):
+    return (('ab', 'ab'), ['ab', ('ab',)], {'ab': 'ab'}, f"{v!r:>{10}} ab {'ab'}", 'ab' 'ab', (1000000, (1000000, (1000000,))))
+''',
     'a short literal used twice in a function whose body starts with a compound statement': '''
 def f(x):
     for i in x:
